@@ -491,8 +491,13 @@ func callSSA(i *interpreter, caller *frame, callpos token.Pos, fn *ssa.Function,
 		caller: caller, // for panic/recover
 		fn:     fn,
 	}
-	CallStack = append(CallStack, fn.String())
-	defer func() { CallStack = CallStack[:len(CallStack)-1] }()
+	stk := curStack() // per interpreted thread
+	*stk = append(*stk, fn.String())
+	defer func() {
+		if n := len(*stk); n > 0 {
+			*stk = (*stk)[:n-1]
+		}
+	}()
 	if fn.Parent() == nil {
 		name := fn.String()
 		if fn.Name() == "init" && fn.Pkg != nil && fn.Synthetic != "" && !initWhitelist[fn.Pkg.Pkg.Path()] {
